@@ -1,2 +1,162 @@
-(* placeholder while the theorems are written *)
-From KV Require Import DataType DataTypeRun.
+(* C19 — Redis-style data structures behave like their abstract types and survive restart.
+   Only statements, each closed by a lemma of proofs/, each followed by Print Assumptions. *)
+From Coq Require Import List NArith Lia.
+From KV Require Import Bytes GenConsts BytesLemmas Record Engine Script DataType DataTypeRun DataTypeSpec.
+From KV Require Import AMapLemmas EngineInv EngineRefine EngineRecover EngineMergeRun.
+From KV Require Import DataTypeCodec DataTypeSim DataTypeRefine DataTypeEngine.
+Import ListNotations.
+Open Scope N_scope.
+
+(* The reference is DataTypeSpec.a_cmd: strings with expiry, hashes and sorted sets as maps, sets, lists
+   with both ends, one value per key, wrong-type replies, "absent" as one reply (canon), Del.
+   The system is DataTypeRun.run_cmd on the engine model: the command's reads through db_get, its
+   writes through db_put / db_delete / one batch, exactly the byte encodings of datatype/meta.go
+   (the correspondence run compares every stored metadata record byte for byte).
+
+   For EVERY history of commands of all five types on the keys of U, interleaved with restarts under
+   any configuration, merges, syncs and reads of the engine, from EVERY reachable engine state (G) that
+   represents an abstract state (Rel): every reply equals the reference's reply, the engine state stays
+   reachable and keeps representing the reference's state.  In particular a restart or a merge changes
+   nothing (the reference ignores them), a deleted key starts empty when it is created again (KDel maps
+   the key to "absent" in the reference, and the theorem says the implementation agrees from then on),
+   and the element records of the old incarnation are never seen again.
+   Hypotheses, all about inputs the implementation draws from the clock:
+   - versions (time.Now().UnixNano() when a key is created) are below 2^63 and never repeat;
+   - Sep1 / Sep2: no user key equals an internal key key|version|element, and internal keys of two
+     user keys differ (true when all user keys have one length: same_length_sep below; otherwise it
+     rests on the versions being clock readings the keys do not contain);
+   - ZSep: no sorted-set member equals <score><member'><4-byte length of member'> — without it the
+     property is FALSE of the code: C19_zset_collision below, known finding D22;
+   - fewer than 2^63 commands (sizes are uint32 in the code: the model does not wrap them, so the
+     statement is about histories shorter than 2^32 commands on one key). *)
+Theorem C19_histories_refine_abstract_types :
+  forall (U : bytes -> Prop) (V : N -> Prop) (ZM ZS : bytes -> Prop),
+  (forall k, U k -> len k <> 0) ->
+  (forall v, V v -> v < 2 ^ 63) ->
+  (forall k k' v y, U k -> U k' -> V v -> k' <> ikey k v y) ->
+  (forall k k' v v' y y', U k -> U k' -> V v -> V v' -> ikey k v y = ikey k' v' y' -> k = k') ->
+  (forall m m' s, ZM m -> ZM m' -> ZS s -> m <> s ++ m' ++ le32 (len m')) ->
+  forall h d k M A n used,
+  G d k M -> Rel U V ZM ZS n used M A -> n + len h < 2 ^ 63 -> dok U V ZM ZS (d, k) used h ->
+  Forall2 same_reply (snd (drun (d, k) h)) (snd (arun A h)) /\
+  exists M' n' used', G (fst (fst (drun (d, k) h))) (snd (fst (drun (d, k) h))) M' /\
+                      Rel U V ZM ZS n' used' M' (fst (arun A h)).
+Proof. exact drun_refines. Qed.
+Print Assumptions C19_histories_refine_abstract_types.
+
+(* the same from a freshly created database under any configuration *)
+Theorem C19_from_empty_database :
+  forall (U : bytes -> Prop) (V : N -> Prop) (ZM ZS : bytes -> Prop),
+  (forall k, U k -> len k <> 0) ->
+  (forall v, V v -> v < 2 ^ 63) ->
+  (forall k k' v y, U k -> U k' -> V v -> k' <> ikey k v y) ->
+  (forall k k' v v' y y', U k -> U k' -> V v -> V v' -> ikey k v y = ikey k' v' y' -> k = k') ->
+  (forall m m' s, ZM m -> ZM m' -> ZS s -> m <> s ++ m' ++ le32 (len m')) ->
+  forall c h,
+  exists d k evs, db_open c empty_disk = (OpenOk d k, evs) /\
+  (len h < 2 ^ 63 -> dok U V ZM ZS (d, k) [] h ->
+   Forall2 same_reply (snd (drun (d, k) h)) (snd (arun (fun _ => None) h))).
+Proof. exact drun_refines_from_empty. Qed.
+Print Assumptions C19_from_empty_database.
+
+(* one command on the ordered map (the engine's specification): reply and next state *)
+Theorem C19_command_refines :
+  forall (U : bytes -> Prop) (V : N -> Prop) (ZM ZS : bytes -> Prop),
+  (forall k, U k -> len k <> 0) ->
+  (forall v, V v -> v < 2 ^ 63) ->
+  (forall k k' v y, U k -> U k' -> V v -> k' <> ikey k v y) ->
+  (forall k k' v v' y y', U k -> U k' -> V v -> V v' -> ikey k v y = ikey k' v' y' -> k = k') ->
+  (forall m m' s, ZM m -> ZM m' -> ZS s -> m <> s ++ m' ++ le32 (len m')) ->
+  forall n used M A c ver now,
+  Rel U V ZM ZS n used M A -> U (cmd_key c) -> V ver -> ~ In ver used -> n + 1 < 2 ^ 63 -> cmd_ok ZM ZS c ->
+  exists r, snd (m_cmd M c ver now) = OReply r /\ canon r = snd (a_cmd A c now) /\
+            Rel U V ZM ZS (n + 1) (ver :: used) (fst (m_cmd M c ver now)) (fst (a_cmd A c now)).
+Proof. exact step_refines. Qed.
+Print Assumptions C19_command_refines.
+
+(* a command on the engine model, in any reachable state, is the command on the ordered map *)
+Theorem C19_engine_runs_the_map_command :
+  forall kd d M c ver now bid d' out evs,
+  G d kd M -> bid <> 0 -> run_cmd d c ver now bid = (d', out, evs) ->
+  G d' kd (fst (m_cmd M c ver now)) /\ out = snd (m_cmd M c ver now).
+Proof. exact run_cmd_G. Qed.
+Print Assumptions C19_engine_runs_the_map_command.
+
+(* the metadata record: decode (encode m) = m for every well-formed m (all integer widths of the code) *)
+Theorem C19_metadata_round_trip : forall m, wf_meta m -> dec_meta (enc_meta m) = Some m.
+Proof. exact dec_enc_meta. Qed.
+Print Assumptions C19_metadata_round_trip.
+
+(* the reference: a deleted key is absent for every type, whatever it held *)
+Theorem C19_deleted_key_is_absent : forall A k now, fst (a_cmd A (KDel k) now) k = None.
+Proof. intros A k now. cbn [a_cmd fst]. unfold aupd. rewrite bytes_eqb_refl. reflexivity. Qed.
+Print Assumptions C19_deleted_key_is_absent.
+
+(* ---- the separation hypotheses are satisfiable, and needed ------------------------------------------------- *)
+Theorem C19_same_length_keys_are_separated :
+  forall (U : bytes -> Prop) (V : N -> Prop) (L : nat),
+  (forall k, U k -> length k = L) ->
+  (forall k k' v y, U k -> U k' -> V v -> k' <> ikey k v y) /\
+  (forall k k' v v' y y', U k -> U k' -> V v -> V v' -> ikey k v y = ikey k' v' y' -> k = k').
+Proof. exact same_length_sep. Qed.
+Print Assumptions C19_same_length_keys_are_separated.
+
+(* members of at most three bytes never collide with a score-order key *)
+Theorem C19_short_members_are_separated :
+  forall m m' s : bytes, (length m <= 3)%nat -> m <> s ++ m' ++ le32 (len m').
+Proof.
+  intros m m' s Hm He. apply (f_equal (@length _)) in He. rewrite !app_length in He. cbn [length le32] in He. lia.
+Qed.
+Print Assumptions C19_short_members_are_separated.
+
+(* D22 (known finding): the member record of member <score><m><le32 |m|> IS the score-order record of
+   (score, m); the layer then replies "score 0" (an empty stored score) for a member that was never added.
+   Executed on the ordered map with the layer's own command functions: *)
+Theorem C19_zset_collision :
+  (forall k ver score m, zmember_key k ver (score ++ m ++ le32 (len m)) = zscore_key k ver score m) /\
+  let z := [122] in let m := [109] in let one := [49] in
+  let M1 := fst (m_cmd [] (KZAdd z one m) 5 0) in
+  let A1 := fst (a_cmd (fun _ => None) (KZAdd z one m) 0) in
+  snd (m_cmd M1 (KZScore z (one ++ m ++ le32 1)) 6 0) = OReply (DScore []) /\
+  snd (a_cmd A1 (KZScore z (one ++ m ++ le32 1)) 0) = DNil.
+Proof. split; [exact zset_keys_collide|]. vm_compute. split; reflexivity. Qed.
+Print Assumptions C19_zset_collision.
+
+(* ---- non-vacuity ------------------------------------------------------------------------------------------------ *)
+(* a history on the engine model from an empty database: all five types on one key, a wrong-type attempt,
+   a deletion and re-creation with another type, an expired string, restarts; the side conditions hold
+   and the replies are computed by the model *)
+Definition ex_hist : list dop :=
+  [DCmd (KHSet [107] [102] [1]) 11 10 7; DCmd (KHSet [107] [102] [2]) 12 10 7; DCmd (KHGet [107] [102]) 13 10 7;
+   DCmd (KSAdd [107] [9]) 14 10 7; DEng (OpRestart (mkCfg 64 0 0 0)); DCmd (KHGet [107] [102]) 15 10 7;
+   DCmd (KDel [107]) 16 10 7; DCmd (KPush [107] [5] true) 17 10 7; DCmd (KPush [107] [6] false) 18 10 7;
+   DEng (OpRestart (mkCfg 200 0 0 0)); DCmd (KPop [107] true) 19 10 7; DCmd (KPop [107] true) 20 10 7; DCmd (KPop [107] true) 21 10 7;
+   DCmd (KDel [107]) 22 10 7; DCmd (KZAdd [107] [49] [109]) 23 10 7; DCmd (KZScore [107] [109]) 24 10 7;
+   DCmd (KDel [107]) 25 10 7; DCmd (KSet [107] [118] 5) 26 10 7; DCmd (KGet [107]) 27 10 7; DCmd (KSet [107] [118] 0) 28 10 7; DCmd (KGet [107]) 29 10 7].
+
+Example C19_nonvacuous :
+  let U := fun k : bytes => length k = 1%nat in
+  let V := fun v : N => v < 2 ^ 63 in
+  let ZM := fun m : bytes => (length m <= 3)%nat in
+  let ZS := fun _ : bytes => True in
+  match db_open (mkCfg 1024 0 0 0) empty_disk with
+  | (OpenOk d k, _) =>
+    dok U V ZM ZS (d, k) [] ex_hist /\
+    snd (drun (d, k) ex_hist) =
+      [Some (OReply (DBool true)); Some (OReply (DBool false)); Some (OReply (DBytes [2]));
+       Some (OReply DWrongType); None; Some (OReply (DBytes [2]));
+       Some (OReply DOk); Some (OReply (DSize 1)); Some (OReply (DSize 2));
+       None; Some (OReply (DBytes [5])); Some (OReply (DBytes [6])); Some (OReply DNil);
+       Some (OReply DOk); Some (OReply (DBool true)); Some (OReply (DScore [49]));
+       Some (OReply DOk); Some (OReply DOk); Some (OReply DNil); Some (OReply DOk); Some (OReply (DBytes [118]))] /\
+    snd (arun (fun _ => None) ex_hist) =
+      [Some (DBool true); Some (DBool false); Some (DBytes [2]); Some DWrongType; None; Some (DBytes [2]);
+       Some DOk; Some (DSize 1); Some (DSize 2); None; Some (DBytes [5]); Some (DBytes [6]); Some DNil;
+       Some DOk; Some (DBool true); Some (DScore [49]); Some DOk; Some DOk; Some DNil; Some DOk; Some (DBytes [118])]
+  | _ => False
+  end.
+Proof.
+  vm_compute. split; [|split; reflexivity].
+  repeat split; try reflexivity; try (intros H; repeat destruct H as [H|H]; try discriminate H; try contradiction);
+  try discriminate; try (apply le_n_S; apply le_0_n).
+Qed.
